@@ -740,6 +740,37 @@ class Unit:
             rep.append('\n')
         return ''.join(rep)
 
+    def shapes(self):
+        """Per extracted item: a coarse fingerprint of the *shape* of the source text the proof text was written for —
+        which rewrite rules applied how often, how many loops and closures it has, which ghost anchors were lost.
+        A proof failure inside an item whose shape differs from the blessed one is not reported as a violation (the
+        invariants / closure contracts no longer line up with the code): it is undecided."""
+        out = {}
+        for kind, label, text, item in self.chunks:
+            if item is None:
+                continue
+            mask = code_mask(item.orig)
+            code = ''.join(ch if m else ' ' for ch, m in zip(item.orig, mask))
+            rules = {}
+            for rule, what in item.log:
+                rules[rule] = rules.get(rule, 0) + 1
+            sh = {'rules': rules,
+                  'loops': len(re.findall(r'\b(?:for|while|loop)\b', code)),
+                  'bars': len(re.findall(r'(?<!\|)\|(?![|=])', code)),
+                  'fns': len(re.findall(r'\bfn\s+\w+', code))}
+            if label in out:
+                for k in ('loops', 'bars', 'fns'):
+                    out[label][k] += sh[k]
+                for r, n in rules.items():
+                    out[label]['rules'][r] = out[label]['rules'].get(r, 0) + n
+            else:
+                out[label] = sh
+        for l in self.lost:
+            lab = l.split(': ', 1)[0]
+            if lab in out:
+                out[lab]['lost'] = out[lab].get('lost', 0) + 1
+        return out
+
     def rewrite_counts(self):
         c = {}
         for kind, label, text, item in self.chunks:
